@@ -212,7 +212,10 @@ def onObs (o : Oracle) (op : List String) (cmdAfter : List String)
   | ["stop", x, sig] =>
     let d := decl o x
     -- C12: with ordered shutdown, no dependent that was running at shutdown begin is still alive
-    let c12 := if o.ordered && !o.runAtShutdown.isEmpty then
+    -- (only signals sent by the ordered shutdown itself — its stopper goroutines — are judged: a stop
+    -- issued concurrently by a failed readiness probe or by an API request is not ordered by it)
+    let byStopper := match op with | ["s", "run", key] => key.startsWith "stopper:" | _ => false
+    let c12 := if o.ordered && !o.runAtShutdown.isEmpty && byStopper then
         o.decls.filterMap fun p =>
           if p.name ≠ x && p.deps.any (·.1 = x) && o.runAtShutdown.contains p.name && cmdAfter.contains p.name
           then some s!"C12:stopped-before-dependent {x} while {p.name} alive" else none
